@@ -413,8 +413,10 @@ class Replayer:
         if not valid:
             self.count["tensor_invalid_pair"] += 1
         try:
+            data0 = to_cart(fam, T).reshape((1,) + (3,) * T["rank"])       # one leading axis (see call_act)
+            oTR, oInv = transform_obj(tTR), transform_obj(tInv)
             for n, sym in enumerate(pg.symmetries):
-                got = call_act(fam, sym, T, tTR, tInv)
+                got = from_cart(fam, sym.transform_tensor(data0, T["rank"], oTR, oInv)[0], T["rank"])
                 self.count["act"] += 1
                 exp = dict(rank=T["rank"], re=list(out["acted"][n]["re"]), im=list(out["acted"][n]["im"]))
                 if not tens_eq(got, exp):
@@ -702,7 +704,7 @@ def check(pid, tier):
     rng = random.Random(seed() * 7919 + 9)
     ps = wb()
     W = 16
-    rep.rule("TLC enumerates every list of <= 2 (quick) / <= 3 (thorough) generators from a catalogue of 19 cubic-type and 17 hexagonal-type "
+    rep.rule("TLC enumerates every list of <= 2 (quick, from 12 operations per family) / <= 3 (thorough) generators from a catalogue of 19 cubic-type and 17 hexagonal-type "
              "operations (incl. time-reversed ones; thorough: 3-generator lists from 15/13 of them) on the lattices sc, hex (all lists) and "
              "tet, ort, fcc, bcc, ohex (lists of <= 1 quick, <= 2 thorough, including operations the lattice is not invariant under), "
              "for each group 8/20 k-points, all grids nk<=2/3, "
@@ -721,7 +723,7 @@ def check(pid, tier):
         timing[name] = round(time.time() - t_start, 1)
     pool = ThreadPoolExecutor(max_workers=6)
     # -------- side models, started in the background
-    loopmax = 16 if thorough else 8
+    loopmax = 16 if thorough else 6
     loop_cfg = (f'SPECIFICATION Spec\nCONSTANTS\n  Variant = "code"\n  FAMS = {{"cub", "hex"}}\n  MAXGEN = 2\n  LOOPMAX = {loopmax}\n'
                 "CONSTRAINT Bounded\nINVARIANT PassIsOperator\nINVARIANT DoneIsGenerate\nINVARIANT AppendOnly\nINVARIANT DistinctTail\nCHECK_DEADLOCK FALSE\n")
     f_loop = pool.submit(run_model, "MC_PointGroupLoop.tla", loop_cfg, "c09_loop", 3, False)
@@ -730,9 +732,9 @@ def check(pid, tier):
     f_tr = pool.submit(run_model, "MC_PointGroupTransforms.tla", tr_cfg, "c09_transforms", 2, True)
     # sensitivity self-tests: plausible wrong variants must be rejected by TLC
     sens = {
-        "tr_or": (main_cfg(LATS_=["sc"], MAXGEN=1, invs=GROUP_INV, variant="tr_or"), {"GroupIdentity", "GroupInverses", "GroupClosed"}),
-        "star_exact": (main_cfg(LATS_=["sc"], MAXGEN=1, invs=["StarListsOnce"], variant="star_exact"), {"StarListsOnce"}),
-        "invalid_pair": (main_cfg(LATS_=["sc"], MAXGEN=2, TENSOR_LATS=["sc"], RANKS=[3], COMBOS="invalid", invs=["ActionLawUnconditional"]), {"ActionLawUnconditional"}),
+        "tr_or": (main_cfg(LATS_=["sc"], MAXGEN=1, ONLYC=[3, 15], invs=GROUP_INV, variant="tr_or"), {"GroupIdentity", "GroupInverses", "GroupClosed"}),
+        "star_exact": (main_cfg(LATS_=["sc"], MAXGEN=1, ONLYC=[2, 12], invs=["StarListsOnce"], variant="star_exact"), {"StarListsOnce"}),
+        "invalid_pair": (main_cfg(LATS_=["sc"], MAXGEN=2, ONLYC=[2, 3], TENSOR_LATS=["sc"], RANKS=[3], COMBOS="invalid", invs=["ActionLawUnconditional"]), {"ActionLawUnconditional"}),
         "dup_generators": (main_cfg(LATS_=["sc"], DUPS=True, invs=["GroupClosed", "GroupIdentity", "GroupInverses", "SymIdempotent", "GroupNoDup"]), {"SymIdempotent", "GroupNoDup"}),
     }
     f_sens = {k: pool.submit(run_model, "MC_PointGroupAlg.tla", v[0], "c09_sens_" + k, 2, False) for k, v in sens.items()}
@@ -745,7 +747,9 @@ def check(pid, tier):
         tcfg = main_cfg(LATS_=["sc", "hex"], MAXGEN=2, TENSOR_LATS=["sc", "hex"], COMBOS="all", NGENERIC=1, MAXPAIRS=24, invs=TENSOR_INV)
         bcfg = main_cfg(LATS_=["sc", "hex"], MAXGEN=1, TENSOR_LATS=["sc", "hex"], COMBOS="few", NGENERIC=1, BASIS=True, MAXPAIRS=48, invs=TENSOR_INV)
     else:
-        gcfg = main_cfg(LATS_=["sc", "hex"], LATS1=["tet", "ort", "fcc", "bcc", "ohex"], MAXGEN=2, invs=GROUP_INV)
+        # quick: 12 generators per family (My, C2y, C4y, Identity, ... are left to the thorough tier)
+        gcfg = main_cfg(LATS_=["sc", "hex"], LATS1=["tet", "ort", "fcc", "bcc", "ohex"], MAXGEN=2, invs=GROUP_INV,
+                        ONLYC=[2, 3, 4, 6, 7, 9, 10, 12, 13, 15, 17, 19], ONLYH=[2, 3, 4, 6, 7, 9, 10, 11, 12, 14, 15, 16])
         g3cfg = None
         tcfg = main_cfg(LATS_=["sc", "hex"], MAXGEN=2, TENSOR_LATS=["sc", "hex"], COMBOS="few", NGENERIC=1, MAXPAIRS=12, invs=TENSOR_INV,
                         ONLYC=[2, 3, 7, 12, 13, 15], ONLYH=[2, 3, 4, 7, 11, 14])
@@ -840,7 +844,7 @@ def check(pid, tier):
                            got=f"{type(ex).__name__}: {ex}", spec="Act(TimeReversal, [rank |-> 0, re |-> <<5>>, im |-> <<0>>], odd, ident).re = <<-5>>"))
 
     # -------- code -> spec : recorded random calls validated by TLC
-    recs, classes = make_records(rep, rng, 2500 if thorough else 320)
+    recs, classes = make_records(rep, rng, 1600 if thorough else 240)
     lap("records_made")
     missing = [k for k in REC_SITE if classes.get(k, 0) == 0]
     if missing:
@@ -860,7 +864,7 @@ def check(pid, tier):
     j = next(k for k, v in enumerate(r["out"]["re"]) if v)
     r["out"]["re"][j] = -r["out"]["re"][j]
     corrupt.append((r, "equals_spec"))
-    nchunk = 8
+    nchunk = 8 if thorough else 6
     bounds = [round(k * len(recs) / nchunk) for k in range(nchunk + 1)]
     with ThreadPoolExecutor(max_workers=nchunk + 1) as vp:       # validate_records runs TLC with one worker: several chunks at once
         futs = [vp.submit(ftable.validate_records, "PointGroupAlgRec.tla", REC_CFG, recs[bounds[k]:bounds[k + 1]], f"c09_{k}") for k in range(nchunk)]
